@@ -16,3 +16,4 @@ def run(chk):
     F.rule_location_agreement(chk, chk.repo, "C09.3")
     F.rule_one_row_per_key(chk, chk.repo, "C09.4")
     F.rule_combinator_store(chk, chk.repo, "C09.5")
+    F.rule_progress_metadata_guard(chk, ev, "C09.7")
